@@ -3,6 +3,8 @@
 From CacheV Require Import Base SpecMap Client CacheModel CacheOfModel Ops SpecTTL.
 From CacheV Require Import Conc.
 From CacheV.proofs Require Import C06_seq C06_hist C12_twins C01_sim C02_good C02_methods C02_lin.
+From CacheV.proofs Require X_lin XS_resize CX_mapof CX_map CX_monitor CX_monitor_inst.
+From Coq Require Import NArith.
 
 (* At every call of every history on Cache: the callbacks fired by the call are
    exactly the entries the call physically removed (Delete/GetAndDelete: the entry
@@ -61,3 +63,45 @@ Example C06_example :
     [[]; []; []; [(1%nat, 1, 7)]; [(1%nat, 2, 8)]; []; []].
 Proof. vm_compute. reflexivity. Qed.
 Print Assumptions C06_example.
+
+(* ---------------- the monitors over the concurrent maps themselves (C06 and C05) ----------------
+   proofs/CX_monitor.v, CX_monitor_inst.v: every run of the cache methods over XMachine (mapof.go) and over
+   XMachineS (map.go) -- map calls executed primitive by primitive and interleaved -- is accepted, thread by
+   thread, by the same monitor as C06_concurrent: the callback fires exactly once per entry its call removed,
+   with that entry, after the removal (in a thread the order is: invocation, the map call whose linearization
+   store is the physical removal, the machine's answer, the callback, the response), never for a live entry;
+   the user function runs exactly as often as the call's answer says.  Both cache texts.  Not a monitor
+   statement and false of both machines (schedule: CX_monitor_inst.lgone_is_at_the_answer): callbacks of
+   DIFFERENT threads come in the order of the removals. *)
+Theorem C06_concurrent_over_mapof :
+  forall (K V : Type) (eqd : forall a b : K, {a = b} + {a <> b}) (zero : V) (NOW DFLT : Z) (CB : cbid)
+         hash idx tag nslots seeds g sh probe nstripes minlen grow_only,
+    X_lin.xhyps4 idx nstripes minlen nslots probe -> forall len0 (todo : nat -> list (cop K V)) sched t, (0 < len0)%nat ->
+    (forall u, Forall conc_ok (todo u)) ->
+    mon_accepts CB t mon_idle
+      (CX_monitor_inst.cxlabels eqd hash idx tag nslots seeds g sh probe nstripes minlen grow_only len0 (prog_cache eqd zero) NOW DFLT CB todo sched)
+    /\ mon_accepts CB t mon_idle
+      (CX_monitor_inst.cxlabels eqd hash idx tag nslots seeds g sh probe nstripes minlen grow_only len0 (prog_cacheof eqd zero) NOW DFLT CB todo sched).
+Proof.
+  intros. split; [apply CX_monitor_inst.cache_monitored_over_xmachine | apply CX_monitor_inst.cacheof_monitored_over_xmachine]; assumption.
+Qed.
+Print Assumptions C06_concurrent_over_mapof.
+
+Theorem C06_concurrent_over_map :
+  forall (K V : Type) (eqd : forall a b : K, {a = b} + {a <> b}) (zero : V) (NOW DFLT : Z) (CB : cbid)
+         hash idx tophash nslots seeds g sh nstripes minlen grow_only,
+    @XS_resize.rhyps K hash idx tophash nslots minlen -> forall len0 (todo : nat -> list (cop K V)) sched t, (0 < len0)%nat ->
+    (forall u, Forall conc_ok (todo u)) ->
+    mon_accepts CB t mon_idle
+      (CX_monitor_inst.cslabels eqd hash idx tophash nslots seeds g sh nstripes minlen grow_only len0 (prog_cache eqd zero) NOW DFLT CB todo sched)
+    /\ mon_accepts CB t mon_idle
+      (CX_monitor_inst.cslabels eqd hash idx tophash nslots seeds g sh nstripes minlen grow_only len0 (prog_cacheof eqd zero) NOW DFLT CB todo sched).
+Proof.
+  intros. split; [apply CX_monitor_inst.cache_monitored_over_smachine | apply CX_monitor_inst.cacheof_monitored_over_smachine]; assumption.
+Qed.
+Print Assumptions C06_concurrent_over_map.
+
+Definition C06_monitored_run_nonvacuous := CX_monitor_inst.monitored_run_over_xmachine.
+Definition C06_callback_order_across_threads := CX_monitor_inst.lgone_is_at_the_answer.
+Print Assumptions C06_monitored_run_nonvacuous.
+Print Assumptions C06_callback_order_across_threads.
